@@ -236,7 +236,7 @@ int main(int argc, char** argv) {
                          "det_parallel_break"}) {
     std::string v = vv;
     bool main_v   = v == "plain";
-    add(v, P["triangle+push"], {2}, 2, 1, 2, 4);
+    add(v, P["triangle+push"], {2}, 2, main_v ? 2 : 1, 2, 4);
     add(v, P["hot-object"], {1, 1}, 2, main_v ? 1 : -1, 1, 3);
     add(v, P["chain-conflict"], {2}, 2, main_v ? 1 : -1, 2, 4);
     add(v, P["triangle+push"], {3}, 3, main_v ? 1 : -1, 1, 3);
